@@ -36,6 +36,10 @@ CLAIMS = {
    text="Kernel-checked theorems over the Lean models of dma.cpp and ahbm.cpp: the element trace of a transfer equals the closed-form 3-D strided address list (zero sizes as one, double words aligned), DoDma is the in-order fold of element moves over that list, memory outside the destination set is unchanged, the interrupt handler runs exactly once on completion, SetZ starts only on 0x40C0; aligned 16/32-bit AHBM units perform exactly one external access of that width/address/value, and bursts are transparent when the count is a multiple of the burst length. Tied to the C++ by geometry sweeps and random configurations on the real Dma+Ahbm+SharedMemory objects with logging external callbacks, plus an independent three-loop reference inside the harness.",
    note=NOTE_COMMON + " Recorded findings (see known_findings.json): transfers ending mid-burst and external->external bursts (D10-D12); double-word SIZE0=0xFFFF non-termination (D9).",
    tech="Lean 4 theorems (induction on the three counters, fold refinement) + correspondence run", ref="§7 C13"),
+ "C20": dict(
+   text="The pseudo-register layout table (19 words, 143 slots, shadow lists) is regenerated from register.h on every run and the theorems are re-checked over the regenerated table: slots lie inside 16 bits and are pairwise disjoint; under the hardware-width invariant, writing a word and reading it back returns the written value on all writable bits, every member outside the word is unchanged, read-only members are unchanged (with the explicit write-one-to-clear exception of the loop flag, whose refuting witness is proved), a member visible in two words reads the same in both, the TeakLite limit flag is the OR of the two Teak limit flags and writing it sets both, the accumulator-extension nibble round-trips; and the ar/arp words mean the same register, step and offset to the interpreter's fields, the disassembler's decoding and the generator's expressions (translated from test_generator.cpp). Tied to the C++ exhaustively: all 65536 values into each of the 19 words from several base states on a real RegisterState, and the disassembler's ar/arp annotation over all 65536 values.",
+   note=NOTE_COMMON + " The layout table itself is produced by tools/translate_regs.py (fails loudly on unknown syntax); findings that contradict a literal reading (lp write-one-to-clear changes the read-only bcn bits; AccE write-back rewrites bits 36-39; Get does not mask over-wide members) are proved as witnesses and listed in DESIGN.md.",
+   tech="translator-regenerated Lean table + kernel-checked checker (decide +kernel) with soundness lemmas + exhaustive correspondence", ref="§7 C20"),
 }
 
 PENDING = "not claimed yet: model and theorems for this property are still being built (DESIGN.md §10 staging); no check is registered until it is green on the unchanged tree"
